@@ -76,7 +76,7 @@ def run_unit(unit, workdir, canary=False, extra=None, rlimit=None):
     with open(out, "w") as f:
         f.write(text)
     res = verus.run_verus(out, extra=extra, rlimit=rlimit)
-    per, stray, frontend, vr = verus.analyse(res, g.obligations)
+    per, stray, frontend, vr = verus.analyse(res, g.obligations, ghost_regions=getattr(g, "ghost_regions", None))
     return {"unit": unit, "gen": g, "text": text, "res": res, "per": per, "stray": stray, "frontend": frontend, "vr": vr, "file": out}
 
 
@@ -316,6 +316,8 @@ def main():
                 rec["ms"] = p.get("ms")
                 rec["rlimit"] = p.get("rlimit")
                 rec["messages"] = p["messages"][:4]
+                _errs = [m for m in p["messages"] if m.get("kind") == "error"]
+                rec["proof_step_failed"] = [m for m in _errs if m.get("proof_step")][:2]
                 v = p["verdict"]
                 if v == "notrun":
                     rec["verdict"] = "undecided"
@@ -461,6 +463,16 @@ def main():
                     o["verdict"] = "undecided"
                     o["reason"] = "the proof did not carry over, the function now calls %s (not called when the baseline was taken, no contract in this unit), and the bounded run found no failing input" % ", ".join("`%s`" % c for c in ext[:4])
                     continue
+            # ... or if a step of the proof script spliced into the function fails (an assert, the precondition of a lemma call):
+            # the script was written for the code as it was. Once one of its steps does not go through, what comes after it
+            # (including the postcondition) cannot be expected to, so this is a proof that was not re-found, not evidence against
+            # the code -- as long as the bounded run, too, finds nothing. A contract clause that fails while every step of the
+            # script still goes through stays a violation.
+            ps = o.get("proof_step_failed") or []
+            if ps:
+                o["verdict"] = "undecided"
+                o["reason"] = "the spliced proof script no longer fits the code (%s), and the bounded run found no failing input" % "; ".join("%s at generated line %s: %s" % (m["message"], [l for l, _ in m["lines"]][-1:], (m.get("text") or [""])[0][:80]) for m in ps)
+                continue
         rp = os.path.join(VERIF, "replays", "%s-%s.json" % (prop, o["id"].replace("/", "_").replace("#", "_")))
         os.makedirs(os.path.dirname(rp), exist_ok=True)
         json.dump({"property": prop, "obligation": o["id"], "function": o["function"], "verifier": "verus", "verifier_output": o.get("messages"), "input": cex.get("input") if cex else None, "bounded_check": cex.get("finder") if cex else None, "expected": cex.get("expected") if cex else None, "observed": cex.get("observed") if cex else None, "note": None if cex else "no-failing-input-found"}, open(rp, "w"), indent=1)
